@@ -129,6 +129,10 @@ def _extract_nodes_and_run_space(
     if isinstance(config, Mapping):
         run_space = config.get("run_space")
         pipeline = config.get("pipeline")
+        if run_space is None and isinstance(pipeline, Mapping):
+            # Same lookup as parse_pipeline_config: a block nested under
+            # ``pipeline`` is used when there is no top-level one.
+            run_space = pipeline.get("run_space")
         if isinstance(pipeline, Mapping):
             nodes = pipeline.get("nodes", [])
         else:
